@@ -49,7 +49,7 @@ def canon(x, key=None):
         return {k: canon(v, k) for k, v in sorted(x.items())}
     if isinstance(x, list):
         ys = [canon(v) for v in x]
-        if key == "required":  # `list(set(…))` order is not part of the contract
+        if key in ("required", "anyOf", "allOf", "oneOf"):  # set-like: order is not part of the contract
             ys = sorted(ys, key=lambda v: json.dumps(v, sort_keys=True))
         return ys
     return x
@@ -339,8 +339,9 @@ def conv_round(chk, drv, items, mechanism):
     reqs = [("conv", {"cfg": cfg_for(chk, s, nn, resp, updq), "schema": s, "fuel": 2 * py_depth(s) + 8})
             for s, nn, resp, updq, _ in items]
     models = drv.batch(reqs)
+    frags = drv.batch([("frag", {"nn": nn, "schema": s, "f": py_depth(s) + 2, "c": 3 * py_depth(s) + 8}) for s, nn, _, _, _ in items])
     spec_reqs, spec_cases = [], []
-    for (s, nn, resp, updq, insts), m in zip(items, models):
+    for (s, nn, resp, updq, insts), m, fr in zip(items, models, frags):
         impl = impl_conv(s, nn, resp, updq)
         changed = "ok" in impl and dumps(impl["ok"]) != dumps(s)
         chk.case(mechanism, key=[dumps(s), nn, resp, updq], nontrivial=changed,
@@ -372,15 +373,19 @@ def conv_round(chk, drv, items, mechanism):
             continue
         # replay: what the converted schema lets through must conform to the OpenAPI schema (request side)
         conv = impl["ok"]
+        rewrites = any(isinstance(impl_upd(p, lo, hi), str) and impl_upd(p, lo, hi) != p for p, lo, hi in G.pattern_requests(s))
+        exact = fr is True and not rewrites  # hypotheses of C01_nullable_exact hold outright (PatExact trivially)
+        if fr is True:
+            chk.feature(f"{mechanism}:in-fragment-of-C01_nullable_exact" + ("" if not rewrites else "(with pattern rewrite)"))
         for v in insts:
             if not on_wire(v):
                 continue
             spec_reqs.append(("valid", {"env": S.lean_env(s, v, oas="request", nullable=nn), "schema": s, "instance": v,
                                         "fuel": 2 * py_depth(s) + 8}))
-            spec_cases.append((s, nn, conv, v))
+            spec_cases.append((s, nn, conv, v, exact))
     specs = drv.batch(spec_reqs)
     pending = []
-    for (s, nn, conv, v), spec in zip(spec_cases, specs):
+    for (s, nn, conv, v, exact), spec in zip(spec_cases, specs):
         if isinstance(spec, dict):
             raise InfraError(f"spec error {spec}")
         try:
@@ -394,6 +399,9 @@ def conv_round(chk, drv, items, mechanism):
                              f"nullable={nn} lean={spec} python={ref}")
         chk.case("conv-replay", key=[dumps(s), dumps(v)], nontrivial=acc or spec)
         chk.feature(f"conv-replay:converted={'accepts' if acc else 'rejects'},openapi={'accepts' if spec else 'rejects'}")
+        if exact and acc != spec:
+            raise InfraError(f"C01_nullable_exact is contradicted by the run (model/spec/oracle inconsistency): schema={json.dumps(s)} "
+                             f"instance={json.dumps(v)} converted-accepts={acc} openapi-accepts={spec}")
         if acc and not spec:
             pending.append((s, nn, conv, v))
     what = ("the converted JSON Schema accepts a value that the OpenAPI schema rejects (request side): positive "
@@ -698,6 +706,8 @@ def coercions(loc, v):
             v = unquote_plus(v)
             out = [v]
         out += {"true": [True], "false": [False], "null": [None]}.get(v, [])
+        if loc in ("header", "cookie"):  # str() spelling of the generated Python value (how it is put on the wire is C06's concern)
+            out += {"True": [True], "False": [False], "None": [None]}.get(v, [])
         if re.fullmatch(r"-?(0|[1-9][0-9]*)", v):
             out.append(int(v))
         elif re.fullmatch(r"-?[0-9]+\.[0-9]+([eE][-+]?[0-9]+)?|-?[0-9]+[eE][-+]?[0-9]+", v):
@@ -852,7 +862,7 @@ def draws_round(chk, drv, docs, n_draws, mechanism="draws"):
                         ok = True
                     if not ok:
                         sig, extra = None, {}
-                        if "$ref" not in json.dumps(doc["body"]) and on_wire(body):
+                        if "$ref" not in json.dumps(doc["body"]):
                             r = classify_pattern(doc["body"], nn, body)
                             if r is None:
                                 repc = drv.one("conv", {"cfg": cfg_for(chk, doc["body"], nn, vForbid="repaired"), "schema": doc["body"],
